@@ -178,7 +178,7 @@ def gen_directed(rng, which):
         entries.append([a + "/" + rng.choice([".gitignore", ".fdignore"]), "I", [d]])
     elif which == "n5":
         o["no_ignore"] = False
-        entries.append([a + "/.gitignore", "I", [rng.choice([d, f])]])
+        entries.append([a + "/.gitignore", "I", [rng.choice([d, f] if "[" not in f else [d])]])
         roots = [a]
     elif which == "n2":
         o["paths"] = ["TOP:" + d + "/**"]
@@ -466,6 +466,16 @@ class Ref:
         self.pruned_at = {}      # file path -> set of pruned directories seen on candidate routes (prune=False bookkeeping)
         self.budget = 200000
 
+    def in_excluded_tree(self, path):
+        """--exclude: a path is ignored when it, or a directory above it, is matched fully by an exclude pattern"""
+        cur = path
+        while True:
+            if not self.not_excl(cur):
+                return True
+            if cur == "/":
+                return False
+            cur = os.path.dirname(cur)
+
     def ignored(self, stack, path, isdir):
         if self.o["no_ignore"]:
             return False
@@ -501,8 +511,8 @@ class Ref:
         isdir = st_mod.S_ISDIR(m)
         if self.ignored(stack, path, isdir):
             return
-        if not st_mod.S_ISREG(m) and not self.not_excl(path):
-            return                                      # a directory or link matched fully by --exclude is ignored
+        if self.in_excluded_tree(path):
+            return                                      # inside a directory (or a link) matched fully by --exclude
         route2 = route + [path]
         if st_mod.S_ISREG(m):
             self.report(path, route)
@@ -634,7 +644,7 @@ def ign_table(case_nodes_paths, kinds, dirs_with_ign):
     return ",".join(pairs)
 
 
-def prepare(ctx, spec, tag, rng, want_k3):
+def prepare(ctx, spec, tag, rng=None, unused=False):
     """materialise a tree and derive everything that depends only on the tree"""
     base = os.path.join(os.path.realpath(ctx.scratch), tag)
     os.makedirs(base)
@@ -755,8 +765,17 @@ def evaluate(ctx, cases, model, do_cli, fclones):
         ctx.bump("links_in_tree", min(sum(1 for k in c["kinds"].values() if k == "L"), 6))
         ctx.bump("reported_files", min(len(r1["walk"]), 12))
         ctx.bump("size_filter", "%s..%s" % (o["min"], o["max"]))
-        sched_dep = any(m[s]["walk"] != m["lifo"]["walk"] for s in scheds)
-        ctx.bump("model_schedule_dependent", sched_dep)
+        # schedule independence is what the theorems give: C09_exact (no link following) and
+        # C09_exact_follow_partial (route-independent options); elsewhere only soundness is expected
+        route_indep = o["no_ignore"] and not o["one_fs"] and "0" not in bits_d and \
+            (o["depth"] is None or o["depth"] > len(c["eval"]))
+        sched_dep = o["follow"] and not route_indep
+        ctx.bump("theorem_class", "exact_nofollow" if not o["follow"] else ("exact_follow_partial" if route_indep else "sound_only"))
+        if not sched_dep and any(m[s]["walk"] != m["lifo"]["walk"] for s in scheds):
+            ctx.violation({"kind": "model_schedule_dependent_where_theorem_says_not"},
+                          "the model gives different results under different schedulers although the options are in the "
+                          "class of C09_exact / C09_exact_follow_partial", replay, found_input=False)
+        ctx.bump("model_schedule_dependent_observed", any(m[s]["walk"] != m["lifo"]["walk"] for s in scheds))
         nontrivial = len(c["eval"]) > 8 and (len(r1["walk"]) > 0)
         ctx.distinct((c["tree_tag"], json.dumps(o, sort_keys=True), c["cwd"], tuple(c["roots"])), nontrivial)
 
@@ -779,9 +798,6 @@ def evaluate(ctx, cases, model, do_cli, fclones):
         impl_set = set(r1["scan"])
         failing_input = False
         for p in sorted(impl_set - set(doc)):
-            if p in code_like:
-                # reported through a route the documentation reading does not allow; only the ignore scope can do that
-                pass
             failing_input = True
             ctx.violation({"kind": "extra_file"}, "file %s is reported but the options do not select it (%s)" % (p, replay["cli"]),
                           dict(replay, path=p), found_input=True)
@@ -819,9 +835,11 @@ def evaluate(ctx, cases, model, do_cli, fclones):
             corr_bad = ("Walk::run on a 4-thread pool reports a path outside every reference", r4["walk"], m["lifo"]["walk"])
         if corr_bad and not failing_input:
             what, a, b = corr_bad
+            from collections import Counter
+            ca, cb = Counter(a), Counter(b)
             ctx.violation({"kind": "model_mismatch"},
-                          "%s differs from the model: only impl %s, only model %s (%s)" % (
-                              what, sorted(set(a) - set(b))[:5], sorted(set(b) - set(a))[:5], replay["cli"]),
+                          "%s differs from the model (multisets of reported paths): more often in impl %s, more often in model %s (%s)" % (
+                              what, sorted((ca - cb).elements())[:5], sorted((cb - ca).elements())[:5], replay["cli"]),
                           dict(replay, correspondence=what, implementation=a, model=b), found_input=False)
         elif corr_bad:
             core.log("model/implementation disagreement explained by a failing input: %s" % corr_bad[0])
